@@ -103,6 +103,46 @@ type c16Scenario struct {
 	// Pipelined: data messages are sent back to back without waiting for their echo (the
 	// service then reads the next chunk while its previous answer is still on its way out)
 	Pipelined bool `json:"pipelined,omitempty"`
+	// At: per message index, where the service's reader is to be when the message arrives: "gap" (it has found its buffer
+	// empty and released the lock but does not wait yet: held there through hook agent.VerifReadGap), "waiting" or ""
+	At []string `json:"at,omitempty"`
+}
+
+// ---- gate in the reader's gap (hook agent.VerifReadGap): keyed by the virtual connection's remote address
+
+type gapGate struct {
+	hit     chan struct{}
+	release chan struct{}
+}
+
+var gapGates = struct {
+	mu sync.Mutex
+	m  map[string]*gapGate
+}{m: map[string]*gapGate{}}
+
+func armGap(remote string) *gapGate {
+	g := &gapGate{hit: make(chan struct{}), release: make(chan struct{})}
+	gapGates.mu.Lock()
+	gapGates.m[remote] = g
+	gapGates.mu.Unlock()
+	return g
+}
+
+func init() {
+	agent.VerifReadGap = func(local, remote net.Addr) {
+		gapGates.mu.Lock()
+		g := gapGates.m[remote.String()]
+		delete(gapGates.m, remote.String())
+		gapGates.mu.Unlock()
+		if g == nil {
+			return
+		}
+		close(g.hit)
+		select {
+		case <-g.release:
+		case <-time.After(5 * time.Second):
+		}
+	}
 }
 
 type c16Result struct {
@@ -111,6 +151,7 @@ type c16Result struct {
 	Echoed    map[string]string `json:"echoed"`    // k -> hex of payloads received back tagged with k
 	EOFs      map[string]int    `json:"eofs"`      // k -> EOF messages received for k
 	Done      map[string]bool   `json:"done"`      // k -> the service of the latest announcement of k has seen the end of its stream and returned
+	Notes     []string          `json:"notes,omitempty"`
 	Stray     []string          `json:"stray"`
 	Error     string            `json:"error,omitempty"`
 }
@@ -222,8 +263,47 @@ func c16Run(rig *agentRig, sc c16Scenario) c16Result {
 		}
 	}()
 	gone := false
+	at := func(i int) string {
+		if i >= 0 && i < len(sc.At) {
+			return sc.At[i]
+		}
+		return ""
+	}
+	var gate *gapGate
+	// the message after the next one is to arrive in the gap: the gate is armed before the reader can get there
+	armFor := func(i int) {
+		if at(i) == "gap" {
+			_, ra := c16Addr(sc.ID, sc.Msgs[i].K)
+			gate = armGap(ra.String())
+		}
+	}
+	armFor(1) // (message 0 is the hello that creates the reader)
 	for i, m := range sc.Msgs {
 		la, ra := c16Addr(sc.ID, m.K)
+		switch at(i) {
+		case "gap":
+			// wait until the reader is held in the gap (it is not if an earlier chunk never reached it)
+			select {
+			case <-gate.hit:
+			case <-time.After(600 * time.Millisecond):
+				res.Notes = append(res.Notes, fmt.Sprintf("message %d: the reader did not come to the gap", i))
+			}
+		case "waiting":
+			time.Sleep(30 * time.Millisecond)
+		}
+		if at(i) == "gap" && gate != nil {
+			// the message is handled by the session loop while the reader is held; 30 ms later the reader goes on
+			// (the gate for the next message is armed before that)
+			g := gate
+			gate = nil
+			armFor(i + 1)
+			go func() {
+				time.Sleep(30 * time.Millisecond)
+				close(g.release)
+			}()
+		} else if i > 0 {
+			armFor(i + 1)
+		}
 		switch m.M {
 		case "hello":
 			frameWrite(cl, agent.TypeHello, agent.Hello{Laddr: la, Raddr: ra})
